@@ -125,6 +125,10 @@ def cases(tier, seed):
     for kind in ('arr:u2', 'arr:f8', 'fcs:16', 'fcs:F', 'rfi:lin', 'sub:slice'):
         for k in (1, 2, 3, 4, 5):
             yield dict(kind='wide', container=kind, k=k, tier=tier)
+    # floating-point containers with events that have no value (NaN) in some channel
+    for kind in ('arr:f4', 'arr:f8', 'fcs:F', 'fcs:D'):
+        for nanat in ([[1, 1]], [[0, 0], [4, 0]], [[2, 2], [3, 1]], [[0, 0], [1, 1], [2, 2]]):
+            yield dict(kind='nan', container=kind, nanat=nanat)
     # channel names that read like something else: strings of digits (a detector called '1' is not position 1), names with blanks,
     # commas and slashes (filter names), a name that is the text of a negative position
     for naming in ('digits', 'filters'):
@@ -134,6 +138,15 @@ def cases(tier, seed):
 
 
 WIDE = [[3, 40, 500, 6, 70], [5, 10, 300, 2, 90], [4, 30, 100, 9, 20], [8, 20, 700, 1, 50]]      # 4 events x 5 channels, every column different
+
+
+class OneShot(object):
+    """a channel selection that can be iterated only once; made anew for every call"""
+    def __init__(self, label, make):
+        self.label, self.make = label, make
+
+    def __repr__(self):
+        return '<%s>' % self.label
 
 
 def run_wide(c):
@@ -162,6 +175,9 @@ def run_wide(c):
                       tuple(nm[j] if (i + j) % 2 == 0 else j for i, j in enumerate(sel))]
             if len(sel) == 1:
                 forms += [nm[sel[0]], sel[0]]            # a single channel asked for as a scalar
+            # one-shot iterables (what filter(), map(), reversed() and generator expressions give): the sample's channel lookup accepts them
+            forms += [OneShot('generator of names', lambda sel=sel: (nm[j] for j in sel)), OneShot('iter of positions', lambda sel=sel: iter(list(sel))),
+                      OneShot('map to names', lambda sel=sel: map(lambda j: nm[j], sel))]
         for form in forms:
             for st in STATS:
                 if 'only' in c and c['only'] != [list(sel), repr(form), st]:
@@ -172,14 +188,14 @@ def run_wide(c):
                 try:
                     with warnings.catch_warnings():
                         warnings.simplefilter('ignore')
-                        v = np.asarray(getattr(FlowCal.stats, st)(obj, form))
+                        v = np.asarray(getattr(FlowCal.stats, st)(obj, form.make() if isinstance(form, OneShot) else form))
                 except Exception as e:
                     res.violation('wide:%s:%s:raises:%s' % (st, kind, type(e).__name__), 'stats.%s(%s with 5 channels, channels=%s) raised %s: %s' % (st, kind, fr, type(e).__name__, e), one)
                     continue
-                if repr(form) != fr:
+                if repr(form) != fr and not isinstance(form, OneShot):
                     res.violation('wide:%s:%s:channel-argument-changed' % (st, kind), 'stats.%s(%s, channels=%s) changed the caller\'s channel list to %r' % (st, kind, fr, form), one)
                     continue
-                if not isinstance(form, (list, tuple)):
+                if not isinstance(form, (list, tuple, OneShot)):
                     if v.shape != ():
                         res.violation('wide:%s:%s:shape' % (st, kind), 'stats.%s(%s with 5 channels, channels=%s) returned shape %s for a single channel' % (st, kind, fr, v.shape), one)
                         continue
@@ -341,10 +357,61 @@ def make_container(kind, M, alpha, names=None):
     raise ValueError(kind)
 
 
+def run_nan(c):
+    """floating-point containers in which some events have no value (NaN) in some channel: the arithmetic statistics of such a channel are
+    NaN by their definitions (a sum with a NaN term), consistently across mean, SD and CV; channels without NaN follow their definitions"""
+    import FlowCal
+    res = Result()
+    kind = c['container']
+    nanat = c['nanat']                      # list of (event, channel) cells that hold NaN
+    base = [[3.0, 40.0, 500.0], [5.0, 10.0, 300.0], [4.0, 30.0, 100.0], [8.0, 20.0, 700.0], [6.0, 25.0, 250.0]]
+    M = [list(r) for r in base]
+    for (i, j) in nanat:
+        M[i][j] = float('nan')
+    obj, sp, vals = make_container(kind, M, 'frac')
+    named = not kind.startswith('arr')
+    tol = 1e-6 if sp else 1e-9
+    nancols = sorted(set(j for _, j in nanat))
+    forms = [None, [0, 1, 2], [2, 0], 0, 1, 2, -1, (1, 2)] + ([['CH3', 'CH1'], 'CH2', ['CH1', 1, 'CH3']] if named else [])
+    for form in forms:
+        sel = [0, 1, 2] if form is None else [(f if isinstance(f, int) else int(f[2:]) - 1) % 3 for f in (form if isinstance(form, (list, tuple)) else [form])]
+        got = {}
+        one = dict(c)
+        try:
+            with warnings.catch_warnings():
+                warnings.simplefilter('ignore')
+                for st in ('mean', 'std', 'cv', 'median', 'iqr'):
+                    got[st] = np.asarray(getattr(FlowCal.stats, st)(obj, form), dtype=float).reshape(-1)
+        except Exception as e:
+            res.violation('nan:raises:%s' % type(e).__name__, 'stats on %s with NaN events, channels=%r raised %s: %s' % (kind, form, type(e).__name__, e), one)
+            continue
+        bad = None
+        for k_, j in enumerate(sel):
+            if j in nancols:
+                for st in ('mean', 'std', 'cv'):
+                    if not math.isnan(float(got[st][k_])):
+                        bad = 'stats.%s(%s, channels=%r): entry %d (channel %d, which holds NaN events) is %r, the definition (a sum over all events) gives NaN' % (st, kind, form, k_, j, float(got[st][k_]))
+            else:
+                r_ = ref(tuple(row[j] for row in base))
+                for st in ('mean', 'std', 'cv', 'median', 'iqr'):
+                    if not close(got[st][k_], r_[st], tol):
+                        bad = 'stats.%s(%s, channels=%r): entry %d (channel %d, without NaN) is %r, the definition gives %r' % (st, kind, form, k_, j, float(got[st][k_]), r_[st])
+            if bad:
+                break
+        if bad:
+            res.violation('nan:value', bad, one)
+        else:
+            res.ok('nan', True)
+    res.sample({'container': kind, 'NaN cells': nanat})
+    return res
+
+
 def run_case(c):
     import FlowCal
     if c.get('kind') == 'wide':
         return run_wide(c)
+    if c.get('kind') == 'nan':
+        return run_nan(c)
     res = Result()
     N, D, alpha = c['N'], c['D'], c['alpha']
     single = 'single' in c
